@@ -223,6 +223,23 @@ func jobC02(c *rt.Ctx) {
 		oz.ZIP215Verify = true
 		sz, ez := priv.Sign(nil, msg, &oz)
 		check("options-zip215", sz, ez)
+		if len(sv.ctx) > 0 {
+			// one Options value a caller keeps and re-fills between calls: contexts of the same length
+			// that differ in the last / first byte only, and a shorter and a longer one, are signed under
+			// first; the signature depends on the options as they are at the call
+			prev := []string{flipByte(sv.ctx, len(sv.ctx)-1), flipByte(sv.ctx, 0), sv.ctx[:len(sv.ctx)-1]}
+			if len(sv.ctx) < ContextMaxSize {
+				prev = append(prev, sv.ctx+"x")
+			}
+			ro := &Options{Hash: opts.Hash}
+			for _, pc := range prev {
+				ro.Context = pc
+				priv.Sign(nil, msg, ro)
+				ro.Context = sv.ctx
+				sr, er := priv.Sign(nil, msg, ro)
+				check("options-refilled", sr, er)
+			}
+		}
 		if rec.calls != 0 {
 			c.Violation("C02 entropy-read", "PrivateKey.Sign read from its entropy argument", map[string]interface{}{"calls": rec.calls})
 		}
@@ -974,3 +991,10 @@ func (o customOpts) HashFunc() crypto.Hash { return o.h }
 type customOptsPtr struct{ h crypto.Hash }
 
 func (o *customOptsPtr) HashFunc() crypto.Hash { return o.h }
+
+// flipByte returns s with byte i complemented in its lowest bit.
+func flipByte(s string, i int) string {
+	b := []byte(s)
+	b[i] ^= 1
+	return string(b)
+}
